@@ -764,3 +764,16 @@ M("C16-benign-break-edge-front", "C16", "src/interrogate/interrogate_module.cxx"
 M("C16-benign-break-last-edge", "C16", "src/interrogate/interrogate_module.cxx",
   "        dependencies[cycle[0]].erase(cycle[1]);", "        dependencies[cycle[cycle.size() - 2]].erase(cycle.back());",
   benign=True)
+
+M("C04-reference-rebuilt-from-scratch", "C04", "src/cppparser/cppReferenceType.cxx",
+  "    CPPReferenceType *rep = new CPPReferenceType(*this);\n    rep->_pointing_at = ptype;\n    return CPPType::new_type(rep);\n  }\n  return this;",
+  "    return CPPType::new_type(new CPPReferenceType(ptype));\n  }\n  return this;",
+  expect="R04.7|CPPReferenceType::resolve_type")
+M("C04-benign-reference-rebuilt-with-category", "C04", "src/cppparser/cppReferenceType.cxx",
+  "    CPPReferenceType *rep = new CPPReferenceType(*this);\n    rep->_pointing_at = ptype;\n    return CPPType::new_type(rep);\n  }\n  return this;",
+  "    return CPPType::new_type(new CPPReferenceType(ptype, _value_category));\n  }\n  return this;",
+  benign=True)
+M("C06-paramlist-drops-ellipsis", "C06", "src/cppparser/cppParameterList.cxx",
+  "  CPPParameterList *rep = new CPPParameterList;\n  rep->_includes_ellipsis = _includes_ellipsis;\n  bool any_changed = false;\n  for (int i = 0; i < (int)_parameters.size(); ++i) {\n    CPPInstance *inst =\n      _parameters[i]->substitute_decl",
+  "  CPPParameterList *rep = new CPPParameterList;\n  bool any_changed = false;\n  for (int i = 0; i < (int)_parameters.size(); ++i) {\n    CPPInstance *inst =\n      _parameters[i]->substitute_decl",
+  expect="R06.5|CPPParameterList::substitute_decl")
